@@ -28,6 +28,9 @@ type logged struct {
 	// (partial write, then EFBIG).
 	failAt, calls int
 	failBytes     uint64
+	// noFDAt: the j-th GetInboundAnswer call (noFDAnswer) or ProcessInbound call (failAt with
+	// failBytes == noFD) runs while the process cannot obtain a file descriptor (EMFILE).
+	noFDAnswerAt, answers int
 	// deferAll: answer every proposal with Defer during this session (a station that is busy now and
 	// wants the traffic later).
 	deferAll bool
@@ -42,7 +45,11 @@ func (l *logged) ProcessInbound(msgs ...*fbb.Message) error {
 		inject := l.failAt > 0 && l.calls == l.failAt
 		l.mu.Unlock()
 		var err error
-		if inject {
+		if inject && l.failBytes == noFD {
+			if lerr := mboxkit.WithNoFileDescriptors(func() { err = l.MBoxHandler.ProcessInbound(m) }); lerr != nil && err == nil {
+				err = lerr
+			}
+		} else if inject {
 			if lerr := mboxkit.WithFileSizeLimit(l.failBytes, func() { err = l.MBoxHandler.ProcessInbound(m) }); lerr != nil && err == nil {
 				err = lerr
 			}
@@ -68,8 +75,22 @@ func (l *logged) SetDeferred(mid string) {
 	l.lg.Add(mem.Event{Station: l.name, Kind: mem.EvSetDeferred, MID: mid})
 }
 
+// noFD as failBytes selects descriptor exhaustion instead of a file-size limit.
+const noFD = ^uint64(0)
+
 func (l *logged) GetInboundAnswer(p fbb.Proposal) fbb.ProposalAnswer {
-	a := l.MBoxHandler.GetInboundAnswer(p)
+	l.mu.Lock()
+	l.answers++
+	inject := l.noFDAnswerAt > 0 && l.answers == l.noFDAnswerAt
+	l.mu.Unlock()
+	var a fbb.ProposalAnswer
+	if inject {
+		if err := mboxkit.WithNoFileDescriptors(func() { a = l.MBoxHandler.GetInboundAnswer(p) }); err != nil {
+			a = l.MBoxHandler.GetInboundAnswer(p)
+		}
+	} else {
+		a = l.MBoxHandler.GetInboundAnswer(p)
+	}
 	if l.deferAll && a == fbb.Accept {
 		a = fbb.Defer
 	}
@@ -117,15 +138,20 @@ func (w *dirWorld) close() { os.RemoveAll(w.dirA); os.RemoveAll(w.dirB) }
 // session runs one session on fresh DirHandler instances (a restart between sessions, as a real
 // program would do). failSide/failAt/failBytes select a genuine storage error.
 func (w *dirWorld) session(plan vpipe.Plan, failSide string, failAt int, failBytes uint64) b2fx.Result {
+	return w.sessionX(plan, failSide, failAt, failBytes, 0)
+}
+
+// sessionX: noFDAnswerAt > 0 makes the j-th proposal answer of station failSide run without file descriptors.
+func (w *dirWorld) sessionX(plan vpipe.Plan, failSide string, failAt int, failBytes uint64, noFDAnswerAt int) b2fx.Result {
 	if w.hA == nil || !w.reuse {
 		w.hA, w.hB = mailbox.NewDirHandler(w.dirA, false), mailbox.NewDirHandler(w.dirB, false)
 	}
 	la := &logged{MBoxHandler: w.hA, name: "A", lg: w.lg}
 	lb := &logged{MBoxHandler: w.hB, name: "B", lg: w.lg, deferAll: w.deferAll}
 	if failSide == "A" {
-		la.failAt, la.failBytes = failAt, failBytes
+		la.failAt, la.failBytes, la.noFDAnswerAt = failAt, failBytes, noFDAnswerAt
 	} else if failSide == "B" {
-		lb.failAt, lb.failBytes = failAt, failBytes
+		lb.failAt, lb.failBytes, lb.noFDAnswerAt = failAt, failBytes, noFDAnswerAt
 	}
 	sa := &b2fx.Side{Call: b2fx.CallA, Handler: la, Master: w.sc.MasterIsA}
 	sb := &b2fx.Side{Call: b2fx.CallB, Handler: lb, Master: !w.sc.MasterIsA}
@@ -287,6 +313,18 @@ func runDir(o *vrt.Obs, p params) {
 					o.Count("dir_storage_errors_injected", 1)
 					o.Sig("dir s%d fail %s j%d b%d", p.Scenario, side, j, fb)
 				}
+				// the same two calls while the station cannot obtain a file descriptor (EMFILE): the store
+				// fails, and the look into the inbox that answers the proposal cannot be made
+				what := fmt.Sprintf("directory mailboxes, scenario %d, ProcessInbound #%d at station %s runs out of file descriptors", p.Scenario, j, side)
+				one(what, func(w *dirWorld) b2fx.Result {
+					return w.session(vpipe.Plan{CutDir: vpipe.NoCut, Capacity: []int{0, 64}[j%2]}, side, j, noFD)
+				})
+				what = fmt.Sprintf("directory mailboxes, scenario %d, proposal answer #%d at station %s is given while no file descriptor can be obtained", p.Scenario, j, side)
+				one(what, func(w *dirWorld) b2fx.Result {
+					return w.sessionX(vpipe.Plan{CutDir: vpipe.NoCut}, side, 0, 0, j)
+				})
+				o.Count("dir_descriptor_exhaustion_injected", 2)
+				o.Sig("dir s%d nofd %s j%d", p.Scenario, side, j)
 			}
 		}
 	}
